@@ -7,6 +7,7 @@ from __future__ import annotations
 from vt.ref import crypto as C
 
 RIGHT, WRONG = "111-22-333", "111-22-334"
+SPELLINGS = {"right-nodash": "11122333", "right-halfdash": "111-22333", "right-spaces": " 111-22-333 ", "right-otherdash": "111\u201322\u2013333"}  # the right digits, spelled differently
 
 
 def _judge_op(rig, op, pin, before, ret, exc, dropped):
@@ -15,6 +16,14 @@ def _judge_op(rig, op, pin, before, ret, exc, dropped):
     det = {"transport": rig.transport, "op": op, "log": [list(x) for x in new], "raised": type(exc).__name__ if exc else None}
     right = pin == RIGHT
     if op == "start":
+        return out
+    if op in SPELLINGS:
+        # another spelling of the right code: the library may refuse it outright (nothing sent), or normalise it - but if it does send an M3 for
+        # it, that M3 has to be the right code's
+        if (3, "rejected") in new:
+            out.append((f"api:accepted-spelling-of-the-right-code-hashed-as-typed:{op}", det))
+        if ret is not None and (5, "accepted") not in new:
+            out.append(("api:pairing-returned-without-an-accepted-m5", det))
         return out
     # (1) the controller's own messages are accepted by a conformant accessory whenever it has a live exchange to judge them in
     if right:
@@ -75,7 +84,7 @@ def case_history(p):
                 if rig.finish_fn is None:
                     trace.append((op, "skipped"))
                     continue
-                pin = RIGHT if name == "right" else WRONG
+                pin = RIGHT if name == "right" else SPELLINGS.get(name, WRONG)
                 ret, exc = rig.finish(pin)
             dropped = rig.dropped > d0
             trace.append((op, "ret" if ret is not None else type(exc).__name__ if exc else "ok", rig.ops, dropped))
@@ -129,6 +138,9 @@ def histories(tier, seed):
                 hs.append(["start", a, b, "right"] if b == "start" else ["start", a, b])
                 if b != "start":
                     hs.append(["start", a, b, "start", "right"])
+        for sp in SPELLINGS:
+            hs.append(["start", sp])
+            hs.append(["start", sp, "start", "right"])
         for sd in sdrops:
             hs.append([sd, "start", "right"])
             hs.append([sd, "right"])
